@@ -505,10 +505,28 @@ func (c *Ctx) checkReplacementMessage() {
 			construct := fk(cs.Caller) + ": replacement message"
 			okHead := core.Derives(args[5], core.IsCallTo(c.method("server", "videoCall", "messageHead")), true)
 			okContent := core.IsFieldLoad(contentF)(args[6])
-			okAuthor := core.Derives(args[2], func(v ssa.Value) bool {
+			isOrig := func(v ssa.Value) bool {
 				ex, ok := v.(*ssa.Extract)
 				return ok && ex.Index == 0 && core.IsCallTo(getOrig)(ex.Tuple)
-			}, true)
+			}
+			okAuthor := core.Derives(args[2], isOrig, true)
+			if p, isParam := core.Strip(args[2]).(*ssa.Parameter); !okAuthor && isParam {
+				// the saving was extracted into a helper taking the author: decided at its call sites
+				idx := -1
+				for i, q := range cs.Caller.Params {
+					if q == p {
+						idx = i
+					}
+				}
+				up := c.callersOf(cs.Caller)
+				okAuthor = idx >= 0 && len(up) > 0
+				for _, u := range up {
+					ua := u.Site.Common().Args
+					if idx >= len(ua) || !core.Derives(ua[idx], isOrig, true) {
+						okAuthor = false
+					}
+				}
+			}
 			r.Check(okHead, "C15.6-replacement-message", construct+" / head built by messageHead", c.pos(cs.Site), "", "acceptance/ending is not published with the replace/webrtc headers")
 			r.Check(okContent, "C15.6-replacement-message", construct+" / content is the invitation's content", c.pos(cs.Site), "", "acceptance/ending does not carry the original invitation content")
 			r.Check(okAuthor, "C15.6-replacement-message", construct+" / authored by the originator", c.pos(cs.Site), "", "acceptance/ending is not authored by the call originator")
